@@ -486,6 +486,11 @@ func (r *rewriter) rewrite() {
 				if _, ok := t.Underlying().(*types.Chan); ok {
 					r.errf(n, "range over channel")
 				}
+				if _, ok := t.Underlying().(*types.Map); ok {
+					if st := r.orderedMapRange(n); st != nil {
+						c.Replace(st)
+					}
+				}
 			}
 		case *ast.UnaryExpr:
 			if n.Op == token.ARROW {
@@ -502,6 +507,62 @@ func (r *rewriter) rewrite() {
 	if r.needVS {
 		astutil.AddNamedImport(r.fset, r.file, "vsched", "verif/vsched")
 	}
+}
+
+// orderedMaps are maps that nbio ranges over while holding more than one entry in scheduled
+// scenarios (nbhttp's Stop / Shutdown close every managed connection). Go randomises the
+// iteration order of a map, which no scheduler choice captures: a replayed choice prefix would
+// meet a different execution. The range statement is rewritten so that the bodies run in a
+// deterministic order of the keys (ranked by the hook function verifConnKeyRank of the package: the keys are derived from pointers, which differ between executions, so they are ranked by the connection's descriptor number): a snapshot of the keys is
+// taken, and for each of them the original loop header is run with a filter in front of the
+// body. Entries deleted meanwhile are skipped, as the language specifies; `continue` and
+// `return` inside the body keep their meaning; a body with `break`, `goto` or a labelled branch
+// is left alone.
+var orderedMaps = map[string]bool{"conns": true, "dialerConns": true}
+
+func (r *rewriter) orderedMapRange(n *ast.RangeStmt) ast.Stmt {
+	sel, ok := n.X.(*ast.SelectorExpr)
+	if !ok || !orderedMaps[sel.Sel.Name] || !strings.HasSuffix(r.pkg.PkgPath, "/nbhttp") {
+		return nil
+	}
+	simple := true
+	ast.Inspect(n.Body, func(x ast.Node) bool {
+		if b, ok := x.(*ast.BranchStmt); ok && (b.Tok == token.BREAK || b.Tok == token.GOTO || b.Label != nil) {
+			simple = false
+		}
+		return simple
+	})
+	if !simple {
+		return nil
+	}
+	r.needVS = true
+	r.selN++
+	mv := ast.NewIdent(fmt.Sprintf("_vmap%d", r.selN))
+	kv := ast.NewIdent(fmt.Sprintf("_vkey%d", r.selN))
+	inner := &ast.RangeStmt{Key: n.Key, Value: n.Value, Tok: n.Tok, X: mv, Body: n.Body}
+	var keyExpr ast.Expr = n.Key
+	if id, isID := n.Key.(*ast.Ident); n.Key == nil || (isID && id.Name == "_") {
+		k := ast.NewIdent(fmt.Sprintf("_vk%d", r.selN))
+		inner.Key = k
+		keyExpr = k
+		if n.Tok != token.DEFINE {
+			inner.Tok = token.DEFINE
+			if n.Value != nil {
+				// `for _, v = range m` with an existing v: keep assigning to it through a fresh name
+				return nil
+			}
+		}
+	}
+	filter := &ast.IfStmt{
+		Cond: &ast.UnaryExpr{Op: token.NOT, X: call("vsched.SameKey", keyExpr, kv)},
+		Body: &ast.BlockStmt{List: []ast.Stmt{&ast.BranchStmt{Tok: token.CONTINUE}}},
+	}
+	inner.Body = &ast.BlockStmt{List: append([]ast.Stmt{filter}, n.Body.List...)}
+	outer := &ast.RangeStmt{Key: ast.NewIdent("_"), Value: kv, Tok: token.DEFINE, X: call("vsched.MapKeysBy", mv, ast.NewIdent("verifConnKeyRank")), Body: &ast.BlockStmt{List: []ast.Stmt{inner}}}
+	return &ast.BlockStmt{List: []ast.Stmt{
+		&ast.AssignStmt{Lhs: []ast.Expr{mv}, Tok: token.DEFINE, Rhs: []ast.Expr{n.X}},
+		outer,
+	}}
 }
 
 func call(fn string, args ...ast.Expr) *ast.CallExpr {
